@@ -6,7 +6,7 @@ criterion fields loaded / tested / freed exhaustively; class-or-name choice; the
 guard; the hook position before the verdict line; every rule item read carries the rebuild
 hook.  Not decided: glob and mask semantics (fnmatch, C13)."""
 from ..facts import AnalysisBroken
-from ..model import sx, walk, is_var, is_field, const_of, vars_in, root_var, same, on_path
+from ..model import sx, walk, is_var, is_field, const_of, vars_in, root_var, same, on_path, rel
 from .. import rules, core, hooks, bnd
 
 UNIT = 'modules/iauth_class.c'
@@ -433,8 +433,18 @@ def run(P, R, tier):
     from . import c13
     from ..report import Remap
     c13.prefix_offsets(P, Remap(R, {'C13.TAB.1': 'C11.TAB.3'}))
+    # a rule's address is read with the digit values of the character table
+    c13.hex_table(P, R, 'C11.TAB.4')
+    # a host rule (/128, /32) keeps its full prefix length, and every bit of an odd prefix length is compared
+    c13.full_range(P, R, c13.scope(P), 'C11.TAB.5', parts=('prefix', 'residue'))
+    R.floor('C11.TAB.5', 3)
     ok_recorded(P, R)
     H = compile_pass(P, R)
+    # every rule object of the section is compiled: a non-rule entry is skipped, it does not end the pass
+    nn = rules.full_traversal(P, R, 'C11.MPT.3', H, lambda c: any(is_var(x) and x.get('t', '').startswith('struct set_node') for x in walk(c)) and const_of((rel(c, True) or [None, None, None])[2]) == 0,
+                              'rule compilation over the section\'s entries')
+    if nn == 0:
+        R.note('C11.MPT.3: the compile pass does not walk the section with a set iterator; not judged')
     comparator(P, R)
     scan(P, R)
     m = matcher(P, R)
